@@ -46,6 +46,9 @@ pub fn run(c: &SchedCase) -> ExecOutcome {
         })
         .collect();
     let done = AtomicU32::new(0);
+    // half of the closing cases: the client threads give their last handles up at the same moment (spin barrier)
+    let sync_drop = closing && k >= 2 && c.case % 2 == 0 && !cfg!(miri);
+    let arrived = AtomicU32::new(0);
     let seed = c.seed ^ c.case;
     let mut cbs: u64 = 0;
     hookrec::begin(&c.plan);
@@ -57,6 +60,7 @@ pub fn run(c: &SchedCase) -> ExecOutcome {
             let p = main_ping.as_ref().unwrap().clone();
             let script = scripts[t as usize].clone();
             let done = &done;
+            let arrived = &arrived;
             hs.push(s.spawn(move || {
                 hookrec::set_thread(t + 1, seed);
                 let mut extra = Vec::new();
@@ -93,6 +97,13 @@ pub fn run(c: &SchedCase) -> ExecOutcome {
                     hookrec::record(H_DROP_END, t as u64 + 1, 0);
                 }
                 hookrec::record(H_DROP_BEGIN, t as u64 + 1, 1);
+                if sync_drop {
+                    arrived.fetch_add(1, Ordering::SeqCst);
+                    let tb = Instant::now();
+                    while arrived.load(Ordering::SeqCst) < k && tb.elapsed() < Duration::from_millis(200) {
+                        std::hint::spin_loop();
+                    }
+                }
                 drop(p);
                 hookrec::record(H_DROP_END, t as u64 + 1, 1);
                 done.fetch_add(1, Ordering::SeqCst);
@@ -180,6 +191,9 @@ pub fn run(c: &SchedCase) -> ExecOutcome {
             o.alarm("close", "source-not-removed-after-last-handle-drop", format!("all Ping handles are gone but {:?} slots are occupied", occupied));
         }
         o.cov("close:all-handles-dropped");
+        if sync_drop {
+            o.cov("close:last-handles-dropped-simultaneously");
+        }
     } else if occupied != Some(1) {
         o.alarm("close", "source-removed-with-live-handle", format!("a Ping handle is alive but {:?} slots are occupied", occupied));
     }
